@@ -7,20 +7,29 @@ only C10's."""
 from pyvc.spec import *  # noqa
 
 L = "location.location_impl."
+AI, AFI, AFIC = "gene.interval.AbstractInterval", "gene.interval.AbstractFeatureInterval", \
+    "gene.interval.AbstractFeatureIntervalCollection"
 GROUPS = {
     ("C01", "C02"): [L + "SingleInterval", L + "CompoundInterval", L + "_EmptyLocation", "location.location.Location"],
     ("C03",): ["sequence.sequence.Sequence", L + "SingleInterval", L + "CompoundInterval"],
-    ("C04",): ["parent.parent.Parent", "sequence.sequence.Sequence", "gene.interval.AbstractInterval"],
-    ("C05", "C07"): ["gene.cds.CDSInterval", "gene.interval.AbstractFeatureInterval"],
-    ("C06",): ["gene.transcript.TranscriptInterval", "gene.interval.AbstractFeatureInterval"],
-    ("C09",): ["gene.collections.AnnotationCollection", "gene.interval.AbstractFeatureIntervalCollection"],
-    ("C11",): ["io.gff3.rows.GFFAttributes", "io.gff3.rows.GFFRow", "gene.interval.AbstractFeatureInterval",
+    ("C04",): ["parent.parent.Parent", "sequence.sequence.Sequence", AI],
+    ("C05", "C07"): ["gene.cds.CDSInterval", AFI, AI],
+    ("C06",): ["gene.transcript.TranscriptInterval", AFI, AI],
+    ("C08",): ["gene.transcript.TranscriptInterval", "gene.cds.CDSInterval", "gene.feature.FeatureInterval",
+               "gene.gene.GeneInterval", "gene.feature.FeatureIntervalCollection", "gene.variants.VariantInterval",
+               "gene.variants.VariantIntervalCollection", "gene.collections.AnnotationCollection", AI, AFI],
+    ("C09",): ["gene.collections.AnnotationCollection", AFIC, AI],
+    ("C11",): ["io.gff3.rows.GFFAttributes", "io.gff3.rows.GFFRow", AFI,
                "gene.gene.GeneInterval", "gene.transcript.TranscriptInterval", "gene.cds.CDSInterval",
                "gene.feature.FeatureInterval", "gene.feature.FeatureIntervalCollection"],
     ("C13",): ["gene.variants.VariantInterval", "gene.variants.VariantIntervalCollection"],
-    ("C14",): ["gene.feature.FeatureInterval", "gene.transcript.TranscriptInterval", "gene.cds.CDSInterval"],
-    ("C20",): ["gene.gene.GeneInterval", "gene.feature.FeatureIntervalCollection",
-               "gene.interval.AbstractFeatureIntervalCollection"],
+    ("C14",): ["gene.feature.FeatureInterval", "gene.transcript.TranscriptInterval", "gene.cds.CDSInterval", AFI, AI,
+               "io.bed.bed.BED12"],
+    ("C16",): ["gene.collections.AnnotationCollection", "gene.gene.GeneInterval", "gene.feature.FeatureIntervalCollection"],
+    ("C18",): [AFI],
+    ("C19",): [L + "SingleInterval", L + "CompoundInterval", "parent.parent.Parent", "sequence.sequence.Sequence"],
+    ("C20",): ["gene.gene.GeneInterval", "gene.feature.FeatureIntervalCollection", AFIC,
+               "gene.collections.AnnotationCollection"],
 }
 
 
